@@ -570,6 +570,10 @@ theorem overlapB_complete (s : SchemaD) (P1 P2 : String) (h : Overlap s P1 P2) :
       simp only [Bool.or_eq_true, List.any_eq_true]
       exact Or.inr ⟨rt, hm, by simp [u1, u2]⟩
 
+/-- doubling a scope does not change merge safety -/
+theorem ms_dup (s : SchemaD) (doc : Doc) (A : TSels) (h : MS s doc A) : MS s doc (A ++ A) :=
+  ms_of_cover s doc _ (fun x y hx hy => ⟨A, h, (hx.append_split).elim id id, (hy.append_split).elim id id⟩)
+
 /-- **msB_sound**: the evaluator only says yes to merge-safe scopes -/
 theorem msB_sound (s : SchemaD) (doc : Doc) (sf : Nat) : ∀ (n : Nat) (L : TSels), msB s doc sf n L = true → MS s doc L := by
   intro n
@@ -581,23 +585,41 @@ theorem msB_sound (s : SchemaD) (doc : Doc) (sf : Nat) : ∀ (n : Nat) (L : TSel
     cases hsc : scopeOf doc sf L with
     | none => simp [hsc] at h
     | some xs =>
-      simp only [hsc, List.all_eq_true] at h
+      simp only [hsc, List.all_eq_true, List.mem_range] at h
       have hmem := scopeOf_complete doc sf L xs hsc
+      -- the check at the positions of two members
+      have pair : ∀ x y, InScope doc L x → InScope doc L y → ∃ same, pairOk s (msB s doc sf n) same x y = true ∧ (same = true → x = y) := by
+        intro x y hx hy
+        obtain ⟨i, hi, hxi⟩ := List.mem_iff_getElem.mp (hmem x hx)
+        obtain ⟨j, hj, hyj⟩ := List.mem_iff_getElem.mp (hmem y hy)
+        have := h i hi j hj
+        simp only [List.getElem?_eq_getElem hi, List.getElem?_eq_getElem hj, hxi, hyj] at this
+        refine ⟨i == j, this, ?_⟩
+        intro he
+        have : i = j := by simpa using he
+        subst this
+        rw [← hxi, ← hyj]
       refine .intro ?_ ?_ ?_
       · intro x y hx hy hk ho
-        have := h x (hmem x hx) y (hmem y hy)
-        simp only [pairOk, hk, beq_self_eq_true, if_true, overlapB_complete s _ _ ho, Bool.and_eq_true] at this
-        have h3 := this.2.1
-        simp only [Bool.and_eq_true, beq_iff_eq] at h3
+        obtain ⟨same, hp, _⟩ := pair x y hx hy
+        simp only [pairOk, hk, beq_self_eq_true, if_true, overlapB_complete s _ _ ho, Bool.and_eq_true] at hp
+        have h3 := hp.2.1
+        simp only [beq_iff_eq] at h3
         exact h3
       · intro x y hx hy hk ho
-        have := h x (hmem x hx) y (hmem y hy)
-        simp only [pairOk, hk, beq_self_eq_true, if_true, overlapB_complete s _ _ ho, Bool.and_eq_true] at this
-        exact ih _ this.2.2
+        obtain ⟨same, hp, hsame⟩ := pair x y hx hy
+        simp only [pairOk, hk, beq_self_eq_true, if_true, overlapB_complete s _ _ ho, Bool.and_eq_true] at hp
+        have h4 := hp.2.2
+        cases same with
+        | false => simpa using ih _ (by simpa using h4)
+        | true =>
+          have hxy := hsame rfl
+          subst hxy
+          exact ms_dup s doc _ (ih _ (by simpa using h4))
       · intro x y t u hx hy hk ht hu
-        have := h x (hmem x hx) y (hmem y hy)
-        simp only [pairOk, hk, beq_self_eq_true, if_true, ht, hu, Bool.and_eq_true] at this
-        exact this.1
+        obtain ⟨same, hp, _⟩ := pair x y hx hy
+        simp only [pairOk, hk, beq_self_eq_true, if_true, ht, hu, Bool.and_eq_true] at hp
+        exact hp.1
 
 /-- **mergeSafeB_sound**: what the driver checks on every accepted document implies the declarative `MergeSafe` -/
 theorem mergeSafeB_sound (s : SchemaD) (doc : Doc) (h : mergeSafeB s doc = true) : MergeSafe s doc := by
